@@ -85,6 +85,7 @@ def reset_twin(pid, out, tier, seed, arkh, tmp, mode="reset"):
         ops = [[int(x) for x in l.split()] for l in scripts[si][1:]]
         ia, ib = {}, {}          # (id, gen) -> index in issue order, per world
         na = nb = 0
+        filt, qrys = [], []      # filter ids; per query (filter index, relation components named per query)
         foreign = 0              # handles issued before the last Reset of this history no longer belong to the world
         for k in range(min(len(ops), len(ta[si]), len(tb[si]))):
             a, b = L.parse_obs(ta[si][k]), L.parse_obs(tb[si][k])
@@ -134,6 +135,14 @@ def reset_twin(pid, out, tier, seed, arkh, tmp, mode="reset"):
                         logs.append(str(l))
                 hs = tuple((f, snap(idx, t) if f == 1 else ()) for f, t in st["handles"][foreign:])
                 return (st["err"], res, tuple(sorted(logs)), hs, st["used"], st["locked"])
+            try:
+                o = ops[k]
+                if o[0] == 15:
+                    filt.append(set(o[3:3 + o[2]]))
+                elif o[0] in (18, 19):
+                    qrys.append((o[1], set(o[3:3 + 2 * o[2]:2])))
+            except IndexError:
+                pass
             if ops[k][0] == 13 and a["err"] == 0 and b["err"] == 0:
                 foreign = len(a["handles"])
                 ia, ib = {}, {}
@@ -141,6 +150,18 @@ def reset_twin(pid, out, tier, seed, arkh, tmp, mode="reset"):
             if mode == "shrink" and ops[k][0] == 14:
                 # world B executed Stats instead of Shrink: compare the world, not the call
                 va, vb = (0, (), ()) + va[3:], (0, (), ()) + vb[3:]
+            if va != vb and ops[k][0] in (18, 19, 20, 22, 23, 24):
+                # known finding "query-relation-on-foreign-component": a query naming a relation target for a
+                # component its filter does not require panics or not depending on which archetypes exist
+                qi = (len(qrys) - 1) if ops[k][0] in (18, 19) else (ops[k][1] if len(ops[k]) > 1 else -1)
+                if 0 <= qi < len(qrys) and 0 <= qrys[qi][0] < len(filt) and not qrys[qi][1] <= filt[qrys[qi][0]]:
+                    kf = [x for x in L.known_findings().get("known", []) if x.get("id") == "query-relation-on-foreign-component"]
+                    if kf:
+                        out.setdefault("known_lines", [])
+                        line = "KNOWN-FINDING: property=%s %s [%s]" % (kf[0].get("property", pid), kf[0]["id"], kf[0]["what"][:200])
+                        if line not in out["known_lines"]:
+                            out["known_lines"].append(line)
+                        break      # the two worlds may differ from here on: next script
             if va != vb:
                 names = ["failure flag", "result", "callback log", "issued handles (alive, components, values, targets)", "used entities", "lock flag"]
                 which = [names[i] for i in range(6) if va[i] != vb[i]]
@@ -175,6 +196,7 @@ def run(pid, cfg, tier, seed, arkh, tmp):
     if sp == "resettwin":
         out = dict(coverage={}, samples=[], violations=[])
         reset_twin(pid, out, tier, seed, arkh, tmp)
+        world_probes(pid, out)
         return out
     if sp == "shrinktwin":
         out = dict(coverage={}, samples=[], violations=[])
@@ -346,6 +368,36 @@ def builds(pid, cfg, tier, seed, arkh, tmp):
     out["coverage"]["build_variants"] = dict(variants=[v[0] for v in variants] + ["(none)"], scripts_per_variant=total // max(1, len(variants)))
     probes(pid, out, ["", "ark_debug", "ark_tiny", "ark_tiny,ark_debug"])
     return out
+
+
+def world_probes(pid, out):
+    """C16: harness/findings runs the same calls on a used-and-Reset world and on a new world and prints
+    whether each call panicked. A divergence listed in known_findings.json is reported as KNOWN-FINDING,
+    any other one is a violation."""
+    rc, o = L.sh(["go", "test", "-count=1", "-tags", "verif", "-run", "TestFinding_" + pid, "-v", "./findings"], cwd=L.HARNESS, timeout=1200)
+    if rc != 0:
+        p = L.write_replay(pid, "gotest", dict(detail="finding probes failed", output=o[-2000:]))
+        out["violations"].append((p, "")); return
+    res = {}
+    for world, call, pv in re.findall(r"FINDING-PROBE %s (reset-world|new-world) (.*): panicked=(true|false)" % pid, o):
+        res.setdefault(call, {})[world] = pv
+    known = [k for k in L.known_findings().get("known", []) if k.get("property") == pid]
+    observed = []
+    for call, r in sorted(res.items()):
+        if r.get("reset-world") != r.get("new-world"):
+            hit = [k for k in known if re.search(k.get("match", {}).get("probe_calls_regex", "$^"), call)]
+            if hit:
+                observed.append((hit[0], call))
+            else:
+                p = L.write_replay(pid, "call", dict(detail="a used-and-Reset world and a new world disagree on whether this call panics", call=call, panicked=r,
+                                                      how_to_run="cd /verif/harness && GOFLAGS=-mod=mod GOPROXY=off go test -count=1 -tags verif -run TestFinding_%s -v ./findings" % pid))
+                out["violations"].append((p, ""))
+    out["coverage"]["world_probes"] = dict(calls=len(res), known_divergences=[c for _, c in observed])
+    for k, call in observed:
+        line = "KNOWN-FINDING: property=%s %s [%s] observed on: %s" % (pid, k["id"], k["what"][:200], call)
+        out.setdefault("known_lines", [])
+        if not any(k["id"] in x for x in out["known_lines"]):
+            out["known_lines"].append(line)
 
 
 def probes(pid, out, tag_sets):
